@@ -22,7 +22,12 @@ Ref(n) == [k |-> "rule", name |-> n]
 NotT(a) == [k |-> "not", a |-> a]
 AndT(a, b) == [k |-> "and", as |-> <<a, b>>]
 OrT(a, b) == [k |-> "or", as |-> <<a, b>>]
+\* Pool "tiny" (for four names): the same shapes with conjunctions of two DIFFERENT names in one order only
 Bodies ==
+  IF Pool = "tiny"
+  THEN {L} \cup {Ref(x) : x \in Targets} \cup {NotT(Ref(x)) : x \in Targets} \cup {OrT(L, Ref(x)) : x \in Targets}
+       \cup {AndT(Ref(Nm(p[1])), Ref(Nm(p[2]))) : p \in {q \in (1..NNames) \X (1..NNames) : q[1] < q[2]}}
+  ELSE
   {L} \cup {Ref(x) : x \in Targets} \cup {NotT(Ref(x)) : x \in Targets}
   \cup {AndT(Ref(x), Ref(y)) : x, y \in AllNames}
   \cup {OrT(L, Ref(x)) : x \in Targets}
